@@ -898,6 +898,42 @@ pub fn run(out: &mut Out, tier: &str, seed: u64, prop: &str) {
                     }
                 }
             }
+            // (2c) single comparisons on `python_version`: the values of that variable are the X.Y pairs, so the meaning of an atom read
+            //      from the text (term_sem) on a grid of X.Y[.Z] environments that contains every boundary decides which function it is —
+            //      atoms with the same truth vector must be the SAME marker, an all-false vector must be FALSE, an all-true one TRUE
+            {
+                let lits = ["3.7", "3.7.0", "3.7.0.0", "3.7.0.1", "3.7.0.0.5", "3.7.1", "3.7.1.0", "3", "3.0", "3.0.1", "3.10", "3.10.0.2", "2.7.18", "4", "3.8"];
+                // (no literal equal to version 0: `python_version < '0'` is constantly false without being FALSE — the end point of the
+                //  version order, the property's FALSE carve-out, C03b's separation hypothesis)
+                let mut grid: Vec<CEnv> = Vec::new();
+                for x in 0..=5u64 { for y in 0..=12u64 { for z in [0u64, 3] {
+                    let mut e = CEnv::default_env();
+                    e.vers[1] = format!("{x}.{y}.{z}");
+                    e.vers[2] = format!("{x}.{y}");
+                    grid.push(e);
+                } } }
+                let mut seen: Vec<(Vec<bool>, Term, MarkerTree)> = Vec::new();
+                for l in lits {
+                    for op in 0..9usize {
+                        for flip in [false, true] {
+                            let atom = Term::V(2, op, l.to_string());
+                            // (pep440_rs has no such specifier: `~=` with one release segment)
+                            if op == 6 && !l.contains('.') { out.stat("c03.pyver_atom_not_a_specifier"); continue; }
+                            let t = if flip { Term::not(atom) } else { atom };
+                            let vec: Option<Vec<bool>> = grid.iter().map(|e| crate::mparse::term_sem(&t, e)).collect();
+                            let Some(vec) = vec else { out.stat("c03.pyver_atom_carved_out"); continue };
+                            let Some(m) = try_build(out, "C03", &t) else { return };
+                            out.evaluations += 1;
+                            out.stat("c03.pyver_atoms");
+                            if vec.iter().all(|b| !*b) && !m.is_false() { out.oracle_fail("C03", "a python_version comparison that no X.Y satisfies is not the FALSE marker", serde_json::json!({"term": t.line(), "dump": dump(&m)})); }
+                            if vec.iter().all(|b| *b) && !m.is_true() { out.oracle_fail("C03", "a python_version comparison that every X.Y satisfies is not the TRUE marker", serde_json::json!({"term": t.line(), "dump": dump(&m)})); }
+                            if let Some((_, t0, m0)) = seen.iter().find(|(v, _, _)| *v == vec) {
+                                if *m0 != m { out.oracle_fail("C03", "two python_version comparisons with the same meaning on every X.Y are different markers", serde_json::json!({"left": t0.line(), "right": t.line(), "left_dump": dump(m0), "right_dump": dump(&m)})); }
+                            } else { seen.push((vec, t, m)); }
+                        }
+                    }
+                }
+            }
             // (3) exhaustive truth tables over the joint abstract grid of small groups
             let groups = if big { 400 } else { 80 };
             for _ in 0..groups {
